@@ -216,10 +216,9 @@ func (h Heap) storeDeref(ref *Term, t types.Type, v *Val) {
 	}
 }
 
+// Slice/array elements of struct type are stored as parallel per-field element arrays
+// (struct of arrays), so append/copy/zeroing work component-wise like for scalars.
 func (h Heap) loadElem(ref, idx *Term, et types.Type) *Val {
-	if _, ok := et.Underlying().(*types.Struct); ok && !isOpaque(et) {
-		return h.loadStructAt(ElemRef(ref, idx), et)
-	}
 	cs := comps(et)
 	ts := make([]*Term, len(cs))
 	for i, c := range cs {
@@ -231,10 +230,6 @@ func (h Heap) loadElem(ref, idx *Term, et types.Type) *Val {
 }
 
 func (h Heap) storeElem(ref, idx *Term, et types.Type, v *Val) {
-	if _, ok := et.Underlying().(*types.Struct); ok && !isOpaque(et) {
-		h.storeStructAt(ElemRef(ref, idx), et, v)
-		return
-	}
 	cs := comps(et)
 	ts := flatten(v)
 	for i, c := range cs {
